@@ -15,7 +15,7 @@ A helper whose `return`s cannot be expressed as values (a `return` inside a loop
 call is left in place (recorded in `notes`).
 """
 import copy
-import json
+import json, re
 import os
 
 from . import hir
@@ -1180,7 +1180,174 @@ def canon_params(data):
     return data
 
 
+def _init_summary(e):
+    """declaration-side description of an initialiser that mentions no local name"""
+    e0 = _strip(e) if isinstance(e, dict) else None
+    if not e0:
+        return "-"
+    k = e0.get("k")
+    if k == "Lit":
+        return "Lit:%r" % (e0.get("v"),)
+    if k in ("Call", "MethodCall"):
+        return "%s:%s" % (k, hir.callee_of(e0) or e0.get("name"))
+    if k == "Struct":
+        return "Struct:%s" % ((e0.get("to") or {}).get("path"))
+    if k == "Path":
+        to = e0.get("to") or {}
+        return "Path:%s" % (to.get("path") if to.get("res") != "local" else "local")
+    if k in ("Unary", "Binary", "AssignOp"):
+        return "%s:%s" % (k, e0.get("op"))
+    if k == "Repeat":
+        return "Repeat:%s" % _init_summary(e0.get("e"))
+    if k in ("AddrOf", "Cast", "Field", "Index"):
+        return "%s(%s)" % (k, _init_summary(e0.get("e")))
+    return str(k)
+
+
+def local_bindings(fn_hir):
+    """[(name, id, type, kind, detail)] for every binding of a function body (closures included, parameters excluded), in source
+    order.  kind/detail describe the declaration only: a `let` with a summary of its initialiser, a pattern position (constructor
+    path and index chain), a closure parameter - never how the name is used."""
+    out = []
+
+    def pat(p, kind, chain, detail):
+        if not isinstance(p, dict):
+            return
+        k = p.get("k")
+        if k == "PBind":
+            out.append((p.get("name"), p.get("id"), str(p.get("ty")), kind, "%s|%s" % (chain, detail)))
+            if p.get("sub"):
+                pat(p["sub"], kind, chain + "@", detail)
+            return
+        ctor = str((p.get("to") or {}).get("path") or "")
+        for i, s_ in enumerate(p.get("pats") or ()):
+            pat(s_, kind, "%s/%s%s.%d" % (chain, k, ctor, i), detail)
+        for f_ in p.get("fields") or ():
+            pat(f_["pat"], kind, "%s/%s%s.%s" % (chain, k, ctor, f_["name"]), detail)
+        if isinstance(p.get("pat"), dict):
+            pat(p["pat"], kind, chain + "/&", detail)
+        for key in ("before", "after"):
+            for i, s_ in enumerate(p.get(key) or ()):
+                pat(s_, kind, "%s/%s.%d" % (chain, key, i), detail)
+        if isinstance(p.get("mid"), dict):
+            pat(p["mid"], kind, chain + "/mid", detail)
+
+    def walk(n):
+        if isinstance(n, list):
+            for x in n:
+                walk(x)
+            return
+        if not isinstance(n, dict):
+            return
+        k = n.get("k")
+        if k == "SLet":
+            pat(n.get("pat"), "let", "", _init_summary(n.get("init")))
+        elif k == "Let":
+            pat(n.get("pat"), "iflet", "", _init_summary(n.get("init")))
+        elif k == "Match":
+            for a in n.get("arms") or ():
+                pat(a.get("pat"), "arm:%s" % n.get("src"), "", _init_summary(n.get("e")))
+        elif k == "Closure":
+            for i, p_ in enumerate(n.get("params") or ()):
+                pat(p_.get("pat", p_), "cparam%d" % i, "", "")
+        for key, v in n.items():
+            if isinstance(v, (dict, list)) and key not in ("sp", "osp", "pat", "params") and not (k == "Match" and key == "arms"):
+                walk(v)
+        if k == "Match":
+            for a in n.get("arms") or ():
+                walk(a.get("guard"))
+                walk(a.get("body"))
+    walk(fn_hir.get("body"))
+    return out
+
+
+try:
+    KNOWN_LOCALS = json.load(open(os.path.join(os.path.dirname(os.path.abspath(__file__)), "known_locals.json")))
+except Exception:
+    KNOWN_LOCALS = {}
+
+_NAME_SUFFIX = re.compile(r"'u?\d+$")
+
+
+def canon_locals(data):
+    """Locals of an anchored function get the names they have on the reference tree.  Only a name of the reference tree that has
+    *disappeared* from the function is ever given back, and only to a new name whose bindings have exactly the same
+    declaration-side signature (type, `let` initialiser kind / pattern position): a consistently renamed local is invisible to
+    the compiler and now to the rules; a function in which every reference name is still present is left untouched."""
+    fns = {f["path"]: f for f in data["fns"]}
+    ren = {}
+    for path, ref in KNOWN_LOCALS.items():
+        f = fns.get(path)
+        if not f or not f.get("hir") or f.get("kind") == "Closure":
+            continue
+        cur = local_bindings(f["hir"])
+        params = set(hir.pat_names_all(f["hir"])) if hasattr(hir, "pat_names_all") else set()
+        ref_names = {r[0] for r in ref}
+        cur_names = {_NAME_SUFFIX.sub("", c[0]) for c in cur}
+        missing = [m for m in dict.fromkeys(r[0] for r in ref) if m not in cur_names]
+        new = [n for n in dict.fromkeys(_NAME_SUFFIX.sub("", c[0]) for c in cur) if n not in ref_names]
+        if not missing or not new:
+            continue
+
+        def sig(entries, name, strip_suffix):
+            return tuple(sorted((e[-3], e[-2], e[-1]) for e in entries if (_NAME_SUFFIX.sub("", e[0]) if strip_suffix else e[0]) == name))
+        by_sig_m, by_sig_n = {}, {}
+        for m in missing:
+            by_sig_m.setdefault(sig(ref, m, False), []).append(m)
+        for n in new:
+            by_sig_n.setdefault(sig(cur, n, True), []).append(n)
+        mapping = {}
+        for sg, ns in by_sig_n.items():
+            ms = by_sig_m.get(sg)
+            if ms and len(ms) == len(ns):
+                for n, m in zip(ns, ms):      # both in source order of first occurrence
+                    mapping[n] = m
+        if not mapping:
+            continue
+        ids = {c[1]: mapping[_NAME_SUFFIX.sub("", c[0])] for c in cur if _NAME_SUFFIX.sub("", c[0]) in mapping}
+
+        def walk(n):
+            if isinstance(n, list):
+                for x in n:
+                    walk(x)
+                return
+            if not isinstance(n, dict):
+                return
+            if n.get("k") == "PBind" and n.get("id") in ids and _NAME_SUFFIX.sub("", n.get("name") or "") in mapping:
+                n["name"] = ids[n["id"]]
+            to = n.get("to")
+            if isinstance(to, dict) and to.get("res") == "local" and to.get("id") in ids and _NAME_SUFFIX.sub("", to.get("name") or "") in mapping:
+                to["name"] = ids[to["id"]]
+            for v in n.values():
+                if isinstance(v, (dict, list)):
+                    walk(v)
+        walk(f["hir"])
+        for q, g in fns.items():
+            if g.get("kind") == "Closure" and q.startswith(path + "::{closure") and g.get("hir"):
+                walk(g["hir"])
+        for g in [f] + [g for q, g in fns.items() if g.get("kind") == "Closure" and q.startswith(path + "::{closure")]:
+            mm = g.get("mir")
+            if mm:
+                for l in mm["locals"]:
+                    if l.get("name") in mapping:
+                        l["name"] = mapping[l["name"]]
+                for d_ in mm.get("debug") or ():
+                    if isinstance(d_, dict) and d_.get("name") in mapping:
+                        d_["name"] = mapping[d_["name"]]
+        ren[path] = mapping
+    if ren:
+        data.setdefault("inline_notes", []).append("locals analysed under their anchor names: %s" % json.dumps(ren))
+    return data
+
+
 def apply(data, known=None):
+    data = _apply(data, known)
+    if KNOWN_LOCALS and not os.environ.get("VERIF_NO_CANON_LOCALS"):
+        data = canon_locals(data)
+    return data
+
+
+def _apply(data, known=None):
     """Mutates and returns the fact dict; adds data['inlined'] = {helper: [callers]} and data['inline_notes']."""
     known = known_fns() if known is None else known
     data.setdefault("inlined", {})
